@@ -499,6 +499,30 @@ def check_pool(r6, db, cfgname, sp, runs):
             commk = [("param", p["d"], p["n"]) for p in f.params if "communicator" in p["t"]][0]
             if a[0] == "ctor" and len(a) == 5 and a[2] == commk and a[4] == ("lit", 1):
                 good = True
+        # the converse: every rank that is in the pool runs the worker loop (otherwise the Finish sent to it stays queued in
+        # the communicator and is matched by the first receive of the next dispatch round on it)
+        wl = [j for j, n in f.walk(f.body) if n["k"] in ("for", "while") and any(nn["k"] in ("decl",) and any("MPIWorker" in (v.get("t") or "") for v in nn["vars"]) for jj, nn in f.walk(j) if nn["k"] == "decl")]
+        wdecl = [j for j, n in f.walk(f.body) if n["k"] == "decl" and any("MPIWorker" in (v.get("t") or "") for v in n["vars"])]
+        site2 = "%s:every-rank-runs-the-worker-loop" % f.qn
+        if not wdecl:
+            r6.unknown(site2, f.loc(), "no MPIWorker is declared in the run function (form not analysed)", cfgname)
+        else:
+            fa_w = guard_facts(f, ctx).get(f.cfg.pos1(wdecl[0]), frozenset())
+            isrank = lambda y: y[0] == "mcall" and y[1] == "boost::mpi::communicator::rank"
+            dep = [x for x in fa_w if key_contains(x, isrank)]
+            # conditions that the must-dataflow cannot express as one fact (a || b): look at the enclosing if statements
+            prev_ = wdecl[0]
+            for a_ in f.ancestors(wdecl[0]):
+                an = f.nodes[a_]
+                if an["k"] == "if" and key_contains(ctx.key(an["c"]), isrank):
+                    inthen = prev_ == an.get("then") or any(jj == wdecl[0] for jj, _ in f.walk(an["then"]))
+                    dep.append(("true" if inthen else "false", ctx.key(an["c"])))
+                prev_ = a_
+            if dep:
+                r6.bad(site2, f.loc(wdecl[0]), "the worker loop is entered only when %s, but the master enrols every rank of the communicator and sends each of them Finish: on a rank that skips the loop the message stays queued and is taken for the first order of the next dispatch round on this communicator, which then never ends" % (
+                    " and ".join(sorted(fact_str(x) for x in dep))[:160]), cfgname)
+            else:
+                r6.ok(site2, f.loc(wdecl[0]), "the worker is created and polled on every rank (no rank-dependent condition guards the loop)", cfgname)
         if good:
             r6.ok(site, f.loc(), "MPIMaster(comm, jobs, include_boss=true): every rank, including the root, runs the worker loop and is in the pool", cfgname)
         else:
